@@ -115,13 +115,38 @@ Example C10_unquoted_text_example : surface_okb (fun _ => None) ex_words ex_word
                                                       (rx "M", PE (PDict [(rx "kx", PE (PStr (rx "sometext")) 0%N)]) 0%N) ]) ].
 Proof. vm_compute. repeat split; reflexivity. Qed.
 
-(* NOT proved: the same for the forms outside the surface family -- unquoted text with colons (the
-   permissive_plain_string COLON production), dictionaries with list values, mixed lists.  These are covered by the correspondence only: random programs x random layouts,
-   single-token corruptions, token soups, unquoted multi-word text, all compared with the real parser's result including
-   line numbers; the evidence counts how many of the generated renderings are instances of C10_layout_irrelevance (Coq
-   re-assembles each text from its decomposition and evaluates surface_okb).  Recorded limitation of the code itself
-   (modelled faithfully): an unquoted multi-word value loses its blanks and re-prints numerals ("This is a string." ->
-   "Thisisastring."). *)
+(* unquoted text with colons as an argument value (the permissive_plain_string COLON production): a Windows path in three tokens
+   and a time of day in three; the colons are kept, the blanks around them are not:   B = Cmd(P = C:\data\in.csv, Q = 12 : 30 h) *)
+Definition ex_colon : list xcmd :=
+  [ {| xc_result := Some (rx "B"); xc_name := rx "Cmd"; xc_trail := false;
+       xc_args := [ (rx "P", XAColon [WW (rx "C")] [[WP (rx "\data\in.csv")]]);
+                    (rx "Q", XAColon [WI (rx "12"); WW (rx "h")] [[WI (rx "30"); WW (rx "h")]]) ] |} ].
+Definition ex_colon_gaps : list text :=
+  let sp := [32%N] in [ []; sp; sp; []; []; sp; sp; []; []; []; sp; sp; sp; sp; sp; sp; sp; [] ].
+Example C10_colon_text_example : surface_okb (fun _ => None) ex_colon ex_colon_gaps [] = true /\
+  lay (combine ex_colon_gaps (tkx_program ex_colon)) [] = rx "B = Cmd(P = C:\data\in.csv, Q = 12 h : 30 h)" /\
+  map xcmd_den ex_colon = [ (Some (rx "B"), rx "Cmd", [ (rx "P", PE (PStr (rx "C:\data\in.csv")) 0%N); (rx "Q", PE (PStr (rx "12h:30h")) 0%N) ]) ].
+Proof. vm_compute. repeat split; reflexivity. Qed.
+
+(* a dictionary as a list element:   B = Cmd(P = [[k: 1, "a b": x y], z]) *)
+Definition ex_nested : list xcmd :=
+  [ {| xc_result := Some (rx "B"); xc_name := rx "Cmd"; xc_trail := false;
+       xc_args := [ (rx "P", XAVal (XList [XDict (KW [WW (rx "k")], PVLeaf (XI (rx "1"))) [(KQ (rx """a b"""), PVWords [WW (rx "x"); WW (rx "y")])] false;
+                                           XLeaf (XW (rx "z"))] false)) ] |} ].
+Definition ex_nested_gaps : list text :=
+  let sp := [32%N] in [ []; sp; sp; []; []; sp; sp; []; []; []; sp; []; sp; []; sp; sp; []; []; sp; []; [] ].
+Example C10_nested_dictionary_example : surface_okb (fun _ => None) ex_nested ex_nested_gaps [] = true /\
+  lay (combine ex_nested_gaps (tkx_program ex_nested)) [] = rx "B = Cmd(P = [[k: 1, ""a b"": x y], z])" /\
+  map xcmd_den ex_nested = [ (Some (rx "B"), rx "Cmd", [ (rx "P", PE (PList [PE (PDict [(rx "a b", PE (PStr (rx "xy")) 0%N); (rx "k", PE (PInt 1%Z) 0%N)]) 0%N; PE (PStr (rx "z")) 0%N]) 0%N) ]) ].
+Proof. vm_compute. repeat split; reflexivity. Qed.
+
+(* NOT proved: the same for the few forms outside the surface family -- unquoted text with colons as the value of a tuple pair or
+   inside a list, and adjacent tokens that only PLY's longest-match rule separates (`1.5.2x`).  These are covered by the
+   correspondence only: random programs x random layouts, single-token corruptions, token soups, mixed lists, unquoted multi-word
+   text, all compared with the real parser's result including line numbers; the evidence counts how many of the accepted
+   renderings are instances of C10_layout_irrelevance (Coq re-assembles each text from its decomposition and evaluates
+   surface_okb) and says why the others are not.  Recorded limitation of the code itself (modelled faithfully): an unquoted
+   multi-word value loses its blanks and re-prints numerals ("This is a string." -> "Thisisastring."). *)
 Print Assumptions C10_lexer_rules.
 Print Assumptions C10_grammar.
 Print Assumptions C10_tokens_are_pieces_of_the_source.
